@@ -43,8 +43,8 @@ REQUIRED_COUNTERS = ['errors_calls', 'unreachable_seen', 'invalid_role_seen', 'c
 SRC = ['a', 'b', 'c', 'i']
 TGT = ['a', 'b', 'c', 'i', 'x', None]
 ROLES = [':instance', ':ARG0', ':ARG0-of', ':foo', ':foo-of', ':consist-of', ':mod', ':ARG0-of-of',
-         ':consist-of-of', ':consist-of-of-of', ':mod-of-of-of', ':TOP', ':op1']
-MODELS_E = ['default', 'amr', 'mini', 'rand1', 'rand2']
+         ':consist-of-of', ':consist-of-of-of', ':mod-of-of-of', ':TOP', ':op1', ':TOP-of', ':instance-of']
+MODELS_E = ['default', 'amr', 'mini', 'rand1', 'rand2', 'noop', 'miniroot']
 GOOD = [':ARG0', ':ARG1', ':mod', ':op1', ':polarity', ':consist-of', ':time']
 BADR = [':foo', ':stroke', ':ARG10', ':consist', ':foo-of-of', ':ARG0-of-of', ':ARG1-of-of-of', ':consist-of-of-of']
 
@@ -94,7 +94,8 @@ def check_errors(ctx, triples, top, mname, det):
 def oracle(ctx, kind, p):
     if kind == 'exh':
         import itertools
-        pool = [(s, r, t) for s in SRC[:3] for r in ROLES for t in TGT]
+        roles_exh = [':instance', ':ARG0', ':ARG0-of', ':foo', ':consist-of', ':ARG0-of-of', ':consist-of-of', ':TOP-of', ':mod']
+        pool = [(s, r, t) for s in SRC[:3] for r in roles_exh for t in TGT]
         idx = -1
         for L in range(0, p['maxlen'] + 1):
             for triples in itertools.product(pool, repeat=L):
@@ -106,7 +107,7 @@ def oracle(ctx, kind, p):
                         ctx.current = ['g', {'triples': [list(t) for t in triples], 'top': top, 'model': mname}]
                         exp = check_errors(ctx, list(triples), top, mname, {'triples': list(triples), 'top': top})
                         ctx.enumerated(nontrivial=bool(exp))
-        ctx.exhaustive[f"triple-lists len<={p['maxlen']} over 126 triples x 3 tops x 2 models (shard slice)"] = idx + 1
+        ctx.exhaustive[f"triple-lists len<={p['maxlen']} over 162 triples x 3 tops x 2 models (shard slice)"] = idx + 1
     elif kind == 'g':
         exp = check_errors(ctx, [tuple(t) for t in p['triples']], p['top'], p['model'], p)
         ctx.case(p, True)
@@ -192,7 +193,7 @@ def run_main(argv, stdin_text):
 
 def run_cli_case(ctx, p):
     rng = ctx.rng('cli', p['i'])
-    mflag, mname = [('--amr', 'amr'), ('--amr', 'amr'), (None, 'default')][p['i'] % 3]
+    mflag, mname = [('--amr', 'amr'), ('--amr', 'amr'), (None, 'default'), ('--noop', 'noop')][p['i'] % 4]
     _, model, rm, _ = M.get(mname)
     nfiles = rng.randrange(1, 5)
     texts = []
@@ -203,12 +204,18 @@ def run_cli_case(ctx, p):
         for gi in range(rng.randrange(0, 4)):
             compliant = rng.random() < 0.65
             roles = GOOD if compliant else GOOD + BADR
-            node = T.rand_tree(rng, rm, roles=roles, p_aln=0, p_inv=0.2,
-                               n_nodes=rng.choice([1, 2, 3, 4]))
+            node = T.rand_tree(rng, rm, roles=roles + ([':TOP-of', ':instance-of'] if rng.random() < .2 else []),
+                               p_aln=0, p_inv=0.2, n_nodes=rng.choice([1, 2, 3, 4]))
             s = penman.format(Tree(node))
+            if rng.random() < 0.08:
+                s = '()'                 # an empty node: its only error is a graph-level one
             g = penman.decode(s, model=model)
             exp = ref_errors(g.triples, g.top, g.top, rm)
-            per_graph.append([tr for tr in exp if tr])
+            if any(tr for tr in exp) and rng.random() < 0.4:
+                # output of an earlier --check run fed back: stale error-N lines on a graph that
+                # (still) has offending triples (on a compliant graph stale lines simply stay)
+                s = '# ::error-1 (x :old y) invalid role\n# ::error-2 stale\n' + s
+            per_graph.append(([tr for tr in exp if tr], bool(exp)))
             expect_bad |= bool(exp)
             gs.append(s)
         texts.append('\n\n'.join(gs) + '\n')
@@ -248,14 +255,14 @@ def run_cli_case(ctx, p):
             if len(outg) != len(per_graph):
                 ctx.fail('cli:graph-count', detail=dict(det, how=how, got=len(outg), want=len(per_graph)))
                 continue
-            for g, offenders in zip(outg, per_graph):
+            for g, (offenders, has_error) in zip(outg, per_graph):
                 recorded = [v for k, v in g.metadata.items() if k.startswith('error-')]
                 for tr in offenders:
                     c = '(%s)' % ' '.join(map(str, tr))
                     if not any(v.startswith(c) for v in recorded):
                         ctx.fail('cli:offending-triple-not-recorded',
                                  detail=dict(det, how=how, triple=tr, metadata=dict(g.metadata)))
-                if not offenders and recorded:
+                if not has_error and recorded:
                     ctx.fail('cli:error-recorded-on-compliant-graph',
                              detail=dict(det, how=how, metadata=dict(g.metadata)))
         if len(runs) == 2 and runs[0][1] != runs[1][1]:
